@@ -149,3 +149,15 @@ Theorem C17_help_column : forall m0 m1, (List.length m0 <= 32)%nat ->
   exists pad, help_row false m0 m1 = m0 ++ pad ++ m1 /\ List.length (m0 ++ pad) = 32%nat.
 Proof. exact help_row_column. Qed.
 Print Assumptions C17_help_column.
+
+(* the SHIPPED matchers.md (Gen/ShippedHelp.v, regenerated from /repo on every run): `help matcher` produces a
+   screen with both settings - no table line of the file fails the row pattern, the file is inside the model -
+   and the coloured screen, stripped, is the plain screen, character for character *)
+From WD Require Import HelpShipped.
+Theorem C17_help_shipped_exact :
+  match shipped_help true, shipped_help false with
+  | Ok a, Ok b => no_color a = b /\ esc_free b
+  | _, _ => False
+  end.
+Proof. exact shipped_help_screen. Qed.
+Print Assumptions C17_help_shipped_exact.
